@@ -1,6 +1,7 @@
 import SqlizeModel.Proofs.SpecColsDown
 import SqlizeModel.Proofs.EndToEndElems
 import SqlizeModel.Proofs.SpecPk
+import SqlizeModel.Abs.FkDrop
 
 namespace Sqlize
 open Spec
@@ -344,7 +345,7 @@ theorem table_spec_up_any (g : Globals) (hg : g.dialect = .mysql) (hio : g.ignor
         ∀ db0 : DB, (db0.map (·.name)).Nodup → db0.find t = some tbO →
         ∃ db' tb', execAll false db0 (cs ++ is) = some db' ∧ db'.find t = some tb' ∧
           colsEquiv tb'.cols tbN.cols = true ∧ tb'.idxs.Perm tbN.idxs ∧
-          tb'.pk = tbN.pk ∧ tb'.name = t ∧ (tbO.fks = [] → tb'.fks = []) ∧
+          tb'.pk = tbN.pk ∧ tb'.name = t ∧ tb'.fks = Abs.Idx.pruneFk dc tbO.fks ∧ (∀ c ∈ dc, c ∉ tbN.colNames) ∧
           (∀ u, u ≠ t → db'.find u = db0.find u) ∧ db'.map (·.name) = db0.map (·.name) := by
   have hoc : old.all Stmt.colSafe = true :=
     List.all_eq_true.mpr (fun s hs => Stmt.colSafe_of_elemSafe s (List.all_eq_true.mp ho s hs))
@@ -436,13 +437,12 @@ theorem table_spec_up_any (g : Globals) (hg : g.dialect = .mysql) (hio : g.ignor
   have hnameO : tbO.name = t := by
     obtain ⟨_, _, hn0⟩ := find_getElem db0 t tbO hf0
     exact hn0
-  refine ⟨db2, { tb1 with idxs := R }, ?_, hf2, ?_, hperm, hpkfin, hn1.trans hnameO, ?_, ?_, hnames2.trans hnames1⟩
+  refine ⟨db2, { tb1 with idxs := R }, ?_, hf2, ?_, hperm, hpkfin, hn1.trans hnameO, ?_, hdcN, ?_, hnames2.trans hnames1⟩
   · rw [execAll_append, he1]; exact he2
   · show colsEquiv tb1.cols tbN.cols = true
     rw [hc1]; exact heq
-  · intro hno
-    show tb1.fks = []
-    rw [hfk1, hno]; rfl
+  · show tb1.fks = _
+    rw [hfk1, hdrop]; rfl
   · intro u hu
     rw [hother2 u hu, hother1 u hu]
 
@@ -468,7 +468,7 @@ theorem table_spec_up (g : Globals) (hg : g.dialect = .mysql) (hio : g.ignoreOrd
   obtain ⟨mo, _, hro⟩ := ReaderMysql.run_rel rc old {} [] dbO Rel.empty hoc heo
   obtain ⟨td, h1, h2, cs, dc, is, h3, h4, h5⟩ := table_spec_up_any g hg hio rc old new dbO dbN ho hn hpo hpn heo hen d hd
     t tbO tbN hfo hfn hc hne hpk hredef
-  obtain ⟨db', tb', e1, e2, e3, e4, e5, _, _, e6, e7⟩ := h5 dbO hro.nodup hfo
+  obtain ⟨db', tb', e1, e2, e3, e4, e5, _, _, _, e6, e7⟩ := h5 dbO hro.nodup hfo
   exact ⟨td, h1, h2, cs, dc, is, h3, h4, db', tb', e1, e2, e3, e4, e5, e6, e7⟩
 
 end Sqlize
